@@ -1094,3 +1094,21 @@ theorem calcProbDists_iff [Field K] [LinearOrder K] (eps : K) (cs : List (Coeff 
     exact chunks_flatten' c dists hd
 
 end QM.C08
+
+namespace QM.C08
+variable {K : Type}
+/-- `truncate_and_normalize` leaves a distribution alone when it sums to one and every entry is either exactly 0 or at
+least `eps` (boundary objects probed with their own eigenstates give exact zeros). -/
+theorem truncNorm_id_zero_or_large' [Field K] [LinearOrder K] (eps : K) (row : List K)
+    (h1 : ∀ p ∈ row, p < eps → p = 0) (h2 : lsum row = 1) : truncNorm eps row = row := by
+  unfold truncNorm
+  have e : (row.map fun p => if p < eps then 0 else p) = row := by
+    conv_rhs => rw [← List.map_id row]
+    apply List.map_congr_left
+    intro p hp
+    by_cases hlt : p < eps
+    · simp [hlt, h1 p hp hlt]
+    · simp [hlt]
+  simp only [e, h2, div_one]
+  simp
+end QM.C08
